@@ -126,7 +126,10 @@ def check_adder(repo, rep, f, g, ga, name, count, start, axis, attr, upd):
             builder = n
         if isinstance(n, ast.Assign) and U(n.targets[0]) == src and isinstance(n.value, ast.ListComp):
             builder = n.value
+    if builder is None and isinstance(ins.value, ast.ListComp):
+        builder = ins.value  # the new rows are written in place as a comprehension
     rng = None
+    loopvar = None
     if isinstance(builder, ast.For):
         rng = builder.iter
         loopvar = U(builder.target)
@@ -151,7 +154,9 @@ def check_adder(repo, rep, f, g, ga, name, count, start, axis, attr, upd):
         okp = len(a) == 4 and a[0] == "self._table_id" and a[3] == "self._model"
         if okp and axis == "row":
             # row = loop var over range(start, start+count); col = loop var over range(self.num_cols)
-            okp = a[1] == loopvar and _comp_var_over(c, a[2], "self.num_cols")
+            first = lin(rng.args[0]) if (rng is not None and isinstance(rng, ast.Call) and call_name(rng) == "range" and len(rng.args) == 2) else (Lin(0) if rng is not None else None)
+            starts_at_start = first is not None and (first - Lin(0, {start: 1})).is_const() and (first - Lin(0, {start: 1})).c == 0
+            okp = a[1] == loopvar and starts_at_start and _comp_var_over(c, a[2], "self.num_cols")
         elif okp:
             # row = enclosing loop var over range(self.num_rows); col = start + k for k in range(count)
             l = lin(c.args[2])
@@ -456,6 +461,54 @@ def check_new_memo(repo, rep):
     rep.extra["newly_memoised_methods"] = n_new
 
 
+def check_new_attribute_memo(repo, rep):
+    """A hand-written memo that did not exist in the confirmed tree -- ``if k in self._m: return self._m[k]`` ...
+    ``self._m[k] = result`` on an attribute the reference class does not have -- must be keyed by every parameter the
+    method's result is computed from."""
+    from .. import refcheck
+    ref_ov = refcheck.reference_overlay()
+    mods = ("model.py", "cell.py", "document.py", "formula.py", "xrefs.py", "containers.py", "tokenizer.py", "iwafile.py", "iwork.py")
+    n_new = 0
+    for mod in mods:
+        rel = f"src/numbers_parser/{mod}"
+        if rel not in ref_ov:
+            continue
+        ref_attrs = {}
+        for c in [n for n in ast.walk(ast.parse(ref_ov[rel])) if isinstance(n, ast.ClassDef)]:
+            ref_attrs[c.name] = {x.attr for x in ast.walk(c) if isinstance(x, ast.Attribute) and isinstance(x.value, ast.Name) and x.value.id == "self"}
+        for cls in [n for n in repo.tree(mod).body if isinstance(n, ast.ClassDef)]:
+            known = ref_attrs.get(cls.name)
+            if known is None:
+                continue
+            for fn in [m for m in cls.body if isinstance(m, ast.FunctionDef)]:
+                stores = {}
+                for n in body_walk(fn):
+                    if isinstance(n, ast.Assign) and len(n.targets) == 1 and isinstance(n.targets[0], ast.Subscript) and isinstance(n.targets[0].value, ast.Attribute) \
+                            and U(n.targets[0].value.value) == "self" and n.targets[0].value.attr not in known:
+                        stores.setdefault(n.targets[0].value.attr, []).append(n)
+                for attr, sts in stores.items():
+                    reads = [r for r in body_walk(fn) if isinstance(r, ast.Return) and r.value is not None and any(
+                        (isinstance(x, ast.Subscript) and U(x.value) == f"self.{attr}") or (isinstance(x, ast.Call) and U(x.func) == f"self.{attr}.get") for x in ast.walk(r.value))]
+                    if not reads:
+                        continue
+                    n_new += 1
+                    key_names = set()
+                    for st in sts:
+                        key_names |= {x.id for x in ast.walk(st.targets[0].slice) if isinstance(x, ast.Name)}
+                    # locals the key is built from count through their definitions
+                    for _ in range(3):
+                        for n in body_walk(fn):
+                            if isinstance(n, ast.Assign) and len(n.targets) == 1 and isinstance(n.targets[0], ast.Name) and n.targets[0].id in key_names:
+                                key_names |= {x.id for x in ast.walk(n.value) if isinstance(x, ast.Name)}
+                    params = [a.arg for a in fn.args.args[1:] + fn.args.kwonlyargs]
+                    used = {x.id for x in body_walk(fn) if isinstance(x, ast.Name) and isinstance(x.ctx, ast.Load)}
+                    missing = [p_ for p_ in params if p_ in used and p_ not in key_names]
+                    rep.ob("C03.R3", sts[0], f"{cls.name}.{fn.name}: new memo self.{attr} keyed by {sorted(key_names & set(params))}", not missing,
+                           "" if not missing else f"the memo self.{attr} is keyed without {missing}, which the result is computed from: a later call with another {missing[0]} gets the answer of the first",
+                           key=f"C03.R3@{cls.name}.{fn.name}:new-attribute-memo:{attr}")
+    rep.extra["new_attribute_memos"] = n_new
+
+
 def check_memo(repo, rep):
     """R3: memoised methods depend only on their key arguments; caches are per instance."""
     n_sites = 0
@@ -501,6 +554,7 @@ def check_memo(repo, rep):
                        "" if ok else f"@cache makes the effect run only on the first call: {eff[0][0]} at {eff[0][2]} ({eff[0][1]}); later saves or edits skip it",
                        key=f"C03.R3@{cls.name}.{fn.name}:effect-free")
     rep.sub(check_new_memo, repo, rep)
+    rep.sub(check_new_attribute_memo, repo, rep)
     # the decorator itself
     cache = repo.func("numbers_cache.py", "cache")
     src = U(cache)
@@ -616,6 +670,8 @@ def check_ownership(repo, rep):
 
 
 VARIANTS = [
+    M("formula-text-memo-keyed-by-formula-only", "formula.py", "    def formula(self, formula_key, row, col):\n        all_formulas = self._model.formula_ast(self._table_id)",
+      "    def formula(self, formula_key, row, col):\n        if formula_key in self._text_memo:\n            return self._text_memo[formula_key]\n        self._text_memo[formula_key] = self._formula_text(formula_key, row, col)\n        return self._text_memo[formula_key]\n\n    def _formula_text(self, formula_key, row, col):\n        all_formulas = self._model.formula_ast(self._table_id)", "C03.R3"),
     M("revert-fix-delete-row-count", "document.py",
       "        if num_rows < 0 or num_rows > self.num_rows - (start_row or 0):\n            msg = \"Number of rows not in range for table\"\n            raise IndexError(msg)\n        if num_rows == 0:\n            return\n",
       "", "C03.R1"),
